@@ -241,6 +241,17 @@ func gridTypes(o *dops, tier string) []gtype {
 // validParams rejects parameter values the database itself rejects (so they are
 // not types of the dialect): PostgreSQL time/interval precision > 6, bit(0).
 func validParams(o *dops, t schema.Type) bool {
+	// negative sizes / precisions are rejected by every database
+	rv := reflect.ValueOf(t).Elem()
+	for i := 0; i < rv.NumField(); i++ {
+		f := rv.Field(i)
+		switch {
+		case (f.Kind() == reflect.Int || f.Kind() == reflect.Int64) && f.Int() < 0:
+			return false
+		case f.Kind() == reflect.Ptr && !f.IsNil() && f.Elem().Kind() == reflect.Int && f.Elem().Int() < 0:
+			return false
+		}
+	}
 	if o.name != "postgres" {
 		return true
 	}
